@@ -9,7 +9,9 @@
    per option of [sent_ra i]: prefix -> autonomous / on-link / valid / preferred, route, RDNSS, DNSSL -> lifetime
    (values in seconds * 10^9). *)
 From Coq Require Import Permutation.
-From CR Require Import Model.Api Proofs.Metrics Proofs.Api.
+From CR Require Import Model.Api.
+From CR Require Import Proofs.Metrics.
+From CR Require Import Proofs.Api.
 Local Open Scope Z_scope.
 
 (* A successful scrape is, up to order, exactly the specified samples: one per prefix (x4) / route / RDNSS / DNSSL
